@@ -291,10 +291,13 @@ func (e *Encoder) writeValue(val reflect.Value, tagType byte) error {
 			r := val.MapRange()
 			for r.Next() {
 				var tagName string
-				if tn, ok := r.Key().Interface().(fmt.Stringer); ok {
+				if r.Key().Kind() == reflect.String {
+					// the key itself, also for string types that are fmt.Stringers: this is what decodes back
+					tagName = r.Key().String()
+				} else if tn, ok := r.Key().Interface().(fmt.Stringer); ok {
 					tagName = tn.String()
 				} else {
-					tagName = r.Key().String()
+					return fmt.Errorf("nbt: map key of type %v is neither a string nor a fmt.Stringer", r.Key().Type())
 				}
 				tagType, tagValue := getTagType(r.Value())
 				if tagType == TagEnd {
